@@ -1394,6 +1394,49 @@ def d17b_merge_needs_a_left_side(chk: Check) -> None:
         raise AnalysisError("merge_docs calls in main(): {}".format(n))
 
 
+LOADER_STAGES = {
+    # stage of ruamel.yaml's load pipeline -> the exception it raises
+    "decoding the file": "UnicodeDecodeError",
+    "reader (unacceptable characters, undecodable STDIN)": "ReaderError",
+    "scanner": "ScannerError",
+    "parser": "ParserError",
+    "composer": "ComposerError",
+    "constructor": "ConstructorError",
+}
+
+
+def d25_every_load_stage_is_trapped(chk: Check) -> None:
+    """The loaders turn ruamel.yaml's failures into a logged message and a
+    "not loaded" result; the tools' exit codes are built on that
+    (yaml-validate: "is invalid", exit 2).  Each stage of the load pipeline
+    has its own exception class, and a stage that is not trapped ends every
+    tool in a traceback instead: a control character in the file (reader)
+    or bytes that are not UTF-8 (decoding)."""
+    prog = chk.prog
+    chk.rule("C16-D25", "both loaders have a handler for the exception of "
+             "every stage of the load pipeline (decoding, reader, scanner, "
+             "parser, composer, constructor)", floor=12)
+    for name in ("Parsers.get_yaml_data", "Parsers.get_yaml_multidoc_data"):
+        fi = prog.func(name)
+        trapped = set()
+        for h in walk_local(fi.node):
+            if isinstance(h, ast.ExceptHandler) and h.type is not None:
+                ts = h.type.elts if isinstance(h.type, ast.Tuple) \
+                    else [h.type]
+                trapped |= {src(t).split(".")[-1] for t in ts}
+        for stage, exc in LOADER_STAGES.items():
+            text = "{}: {}".format(fi.short, stage)
+            if exc in trapped or "Exception" in trapped or \
+                    "YAMLError" in trapped and exc != "UnicodeDecodeError":
+                chk.ok("C16-D25", fi, fi.node, text, exc + " trapped")
+            else:
+                chk.fail("C16-D25", fi, fi.node, text,
+                         "{} is not trapped: a document that fails at this "
+                         "stage ends the tool in a traceback (exit 1) "
+                         "instead of the logged error and the tool's own "
+                         "failure status".format(exc))
+
+
 def d17_loaded_means_a_document(chk: Check) -> None:
     """yaml-merge takes element [0] of its document lists (the prime
     left-hand document, the document whose type decides the output format).
@@ -1478,6 +1521,7 @@ def run(chk: Check) -> None:
     d22_format_by_final_extension(chk)
     d23_logger_reads_live_options(chk)
     d24_strict_decoding(chk)
+    d25_every_load_stage_is_trapped(chk)
     from rules.shared import shared_state_rule
     shared_state_rule(chk, "C16-D12", sorted({f.module.relpath
                                           for f in funcs}), 40)
